@@ -11,7 +11,7 @@ import warnings
 import numpy as np
 import xgi
 
-from .. import nets, shapes, stubs
+from .. import nets, realq, shapes, stubs
 from ..runner import harness
 from ..symx import SymInt
 
@@ -164,6 +164,81 @@ def valuetypes(ctx, p):
             _check(ctx, S, orient, False)
 
 
+def _components(N, edges):
+    comp = list(range(N))
+
+    def find(a):
+        while comp[a] != a:
+            a = comp[a]
+        return a
+
+    for e in edges:
+        e = list(e)
+        for b in e[1:]:
+            comp[find(b)] = find(e[0])
+    return [find(a) for a in range(N)]
+
+
+@harness("C13.spectrum", raises_are_violations=True)
+def spectrum(ctx, p):
+    """The 'consequently' clauses on the matrices the real code returns (real numpy, integer
+    entries taken exactly): for every real vector x, x^T L_k x >= 0; and the kernel of L_0 is
+    exactly the span of the component indicators - every indicator is mapped to zero, and no
+    vector in the kernel takes two values on one component (two z3 queries over the reals,
+    the vector is the solver variable).  Orientation bits: every assignment (forked) on
+    complexes with at most 6 simplices, the default orientation above."""
+    N, M, edges = _shape(p["shape"])
+    labs = POOL[:N] if p.get("pool") else list(range(N))
+    S = xgi.SimplicialComplex()
+    S.add_nodes_from(labs)
+    orient = {}
+    for j in range(M):
+        S._edge[j + 3] = frozenset(labs[i] for i in edges[j])
+        S._edge_attr[j + 3] = {}
+        for i in edges[j]:
+            S._node[labs[i]].add(j + 3)
+        if M <= 6:
+            orient[j + 3] = int(ctx.flag(f"o{j}"))
+    if M > 6:
+        orient = None
+    ctx.info["op"] = "hodge_laplacian (positive semidefinite; kernel of L_0)"
+    ctx.info["args"] = {"labels": labs, "orientations": orient}
+    dim = max((len(e) for e in edges), default=1) - 1
+    comp = _components(N, edges)
+    with warnings.catch_warnings():
+        warnings.simplefilter("ignore")
+        with stubs.uninstalled():
+            for k in range(0, dim + 1):
+                L, md = xgi.hodge_laplacian(S, k, orient, index=True)
+                L = np.asarray(L)
+                n = L.shape[0]
+                ctx.require(L.shape == (n, n), f"hodge_laplacian(order={k}) is not square")
+                realq.require_psd(ctx, L, f"hodge_laplacian(order={k})")
+                if k == 0:
+                    pos = {lab: i for i, lab in md.items()}
+                    ctx.require(set(pos) == set(labs) and len(md) == N, "hodge_laplacian(order=0) is not indexed by the nodes")
+                    if set(pos) != set(labs):
+                        return
+                    for c in set(comp):
+                        ind = [1 if comp[a] == c else 0 for a in range(N)]
+                        ok = all(sum(int(L[pos[labs[a]], pos[labs[b]]]) * ind[b] for b in range(N)) == 0 for a in range(N))
+                        ctx.require(ok, "the indicator of a connected component is not in the kernel of the order-0 Laplacian")
+                    y = [ctx.real(f"y{i}") for i in range(N)]
+                    inker = True
+                    for a in range(N):
+                        row = 0
+                        for b in range(N):
+                            v = int(L[pos[labs[a]], pos[labs[b]]])
+                            if v:
+                                row = y[b] * v + row
+                        if not isinstance(row, int):
+                            ctx.assume(row == 0)
+                    for a in range(N):
+                        for b in range(a + 1, N):
+                            if comp[a] == comp[b]:
+                                ctx.require(y[a] == y[b], "the kernel of the order-0 Laplacian is larger than the span of the component indicators (a kernel vector takes two values on one connected component)")
+
+
 def spec(tier, seed):
     if tier == "quick":
         shp = [s for s in shapes.shapes_S_upto(4, (0,)) if s[1] > 0]
@@ -178,6 +253,10 @@ def spec(tier, seed):
         if 4 <= s[1] <= (7 if tier == "quick" else 9) and max(len(e) for e in s[2]) >= 3:
             for vt in ("bool", "np.bool_", "np.int64"):
                 units.append(("C13.valuetypes", {"shape": s, "vtype": vt}))
+    for s in (shapes.shapes_S_upto(4, (0, 1)) if tier == "quick" else shapes.shapes_S_upto(4, (0, 1, 2))):
+        if s[0]:
+            units.append(("C13.spectrum", {"shape": s}))
+            units.append(("C13.spectrum", {"shape": s, "pool": True}))
     for s in poolsh:
         units.append(("C13.pool", {"shape": s, "orient": False, "strids": False}))
         units.append(("C13.pool", {"shape": s, "orient": True, "strids": True}))
@@ -190,7 +269,7 @@ def spec(tier, seed):
                    "labels": "unbounded integer vertex labels (every label order through the reference sort), symbolic simplex ids; label pool " + repr(POOL) + " with every injective assignment on the smaller complexes",
                    "queries": "one per matrix entry"},
         "assumptions": ["numpy in xgi.linalg.hodge_matrix replaced by a dict-backed integer matrix (zeros, item assignment, transpose, @, +); validated against real numpy on the concrete replays",
-                        "positive semidefiniteness and the kernel dimension of L_0 follow from the checked identities and are not separately decided"],
+                        "C13.spectrum: positive semidefiniteness of every L_k and 'kernel of L_0 = span of the component indicators' are decided by z3 over the reals on the integer matrices the real code returns under real numpy (the vector is the solver variable; orientation bits forked exhaustively up to 6 simplices, default orientation above)"],
         "outside": ["complexes on more than 4 (5) vertices"],
     }
 
